@@ -118,7 +118,7 @@ Definition wf_c06 (c : c06) : bool := wf_ah (k_h c) && forallb wf_sop (k_ops c) 
 
 Definition e_sres (r : sres) : sx :=
   match r with
-  | SOk h => LL (SS "ok" :: e_ah h)
+  | SOk h => LL (SS "ok" :: e_ah h ++ [SS "T"])
   | SRefused => LL [SS "refused"]
   | SNotHist => LL [SS "not-a-histogram"] end.
 
